@@ -1,24 +1,36 @@
 CFG = dict(
      claimed=True,
      rule="Single calls. Cases: (exported function, algorithm / parameter set, path = ok | named failure (wrong key/nonce/tag/plaintext/ciphertext size, "
-          "wrong key kind, bad tag, tampered ciphertext, bad padding under a valid tag, short input ...), message length, per-argument spare "
-          "capacity 0..64, AEAD dst form nil | separate | in place, argument layout) over every exported function of crypto, crypto/aeskw, crypto/padding and "
+          "wrong key kind, bad tag, tampered ciphertext, bad padding under a valid tag, short input ...), message length, associated-data length, per-argument spare "
+          "capacity 0..64, AEAD dst form nil | separate with a few bytes of capacity | separate with room for the whole result | in place, argument layout) over every exported function of crypto, crypto/aeskw, crypto/padding and "
           "crypto/aescbcaead that takes a []byte. Argument layout 'isolated': every []byte argument (and the raw bytes behind a symmetric jwk.Key) is cut out of a "
           "canary-filled backing buffer of its own: 32-byte guard, argument bytes, spare capacity behind len, 32-byte guard. Argument layout 'packed': two or more "
           "arguments of the call are sub-slices of ONE caller buffer in a chosen memory order (nonce|ciphertext|tag, ciphertext|tag, iv|ciphertext, tag|ciphertext, "
           "digest|signature, key|nonce|plaintext ...), adjacent (gap 0), a few canary bytes apart, or overlapping (read-only arguments only), with the capacity of each "
           "sub-slice ending at its length, at the next argument, or at the end of the buffer (two-index slicing: the spare capacity of an argument then covers "
           "the arguments behind it); an in-place AEAD dst inside such a buffer never overlaps and never has capacity over its neighbours. All of every buffer is compared "
-          "bit for bit after the call, except the bytes and capacity of an explicit AEAD dst. MemSweep enumerates function x algorithm x path x lengths around block "
+          "bit for bit after the call, except the bytes and capacity of an explicit AEAD dst. "
+          "Size classes: an implementation may treat long messages differently from short ones (copying vs zero-copy / streaming / pooled-buffer paths), so message lengths - and "
+          "associated-data / label lengths - are taken from two menus: short (0..200, around the 8/16-byte block boundaries) and large: every switch point T in 1, 2, 4, 8, 16, 32, 64, "
+          "128 KiB with offsets -17, -16, -15, -1, 0, +1, +15, +16, +17 (just below, at, just above; whole blocks and one byte off them; rounded to whole units for the algorithms that "
+          "take whole blocks only), with spare capacity behind every argument as for the short ones; encoded keys given to ParseKey grow with the length too. RSA plaintexts (bounded by the "
+          "modulus) and fixed-size digests stay short: there the label / only EdDSA messages are long. "
+          "SizeSweep enumerates function x algorithm x path x (long message | long associated data) x T x offset x spare-capacity pattern (64 everywhere, 16 everywhere, mixed, 1) x dst form, "
+          "isolated and - rotating over memory orders, gaps and capacity modes - packed (quick tier: all offsets on the ok paths up to 16 KiB and -1, 0, +1, +16 above; failure paths "
+          "-1, 0, +1, +16 up to 16 KiB and 0, +1 above; key wrap and associated data -1, 0, +1; RSA private-key operations 4 KiB+1 and 64 KiB+1 labels). "
+          "MemSweep enumerates function x algorithm x path x lengths around block "
           "boundaries x 8 spare-capacity patterns (isolated); LayoutSweep enumerates function x algorithm x path x every choice and order of the arguments sharing one "
-          "buffer x capacity mode x dst form (adjacent; thorough: also gaps and overlaps); rapid draws the rest. Non-trivial: some read-only argument "
+          "buffer x capacity mode x dst form (adjacent; thorough: also gaps and overlaps); rapid draws the rest (MemRapid: a quarter of the message lengths and an eighth of the "
+          "associated-data lengths from the large menu - T x listed offset, or any offset within 64, or any length between T/2 and T; the key-wrap algorithms, six block encryptions per 8 bytes, draw T up to 16 KiB). Non-trivial: some read-only argument "
           "has spare capacity and the call got past argument validation into the primitive (with overlapping arguments: only when the call succeeded). "
           "Sequences of calls in one process (memory handed to a call stays the caller's after the call returned): the arenas of the last Keep (1..12) calls are kept "
           "and ALL of them are compared again after every later call and after a final garbage collection, the former dst included; each step has 0..2 garbage collections "
           "in front of it (pools built on sync.Pool change what they hand out with every collection). SeqSweep: for every (function, algorithm, path) A: [2 collections] A "
-          "[1 collection] then every function x algorithm on its ok path (RSA operations: a rotating subset; thorough: failure paths too), A's arena pinned; "
+          "[1 collection] then every function x algorithm on its ok path (RSA operations: a rotating subset; thorough: failure paths too), A's arena pinned; and the same "
+          "with A's message at T-1 | T+1 | T+16 for a rotating switch point T and every third follower with a large message too (a library may keep buffers for long messages only; "
+          "quick: A on its ok path, no collections; thorough: every path, all three starts); "
           "SeqRapid: 2..12 calls drawn mostly from a small family (a function and its inverse / its wrappers, 1..4 algorithms), each with its own path, sizes, spare capacities "
-          "and layout. Non-trivial sequence: at least two of its calls are non-trivial. Distinct by the case without its random content.",
+          "and layout; a quarter of the sequences draw three quarters of their message lengths from the large menu, the others one eighth. Non-trivial sequence: at least two of its calls are non-trivial. Distinct by the case without its random content.",
      assumptions=["writes are observed as changed bytes: a write of the value already present is invisible (canaries are pseudo-random, per case)",
                   "jwk.FromRaw([]byte) keeps the caller's slice (true for lestrrat-go/jwx v2.0.21), so key bytes are checked in place",
                   "the independent implementations of refcrypto build valid inputs for the decryption paths",
